@@ -7,9 +7,27 @@ THEOREMS: dict[str, list[str]] = {
         "Rbacx.C02.c02_first_applicable",
         "Rbacx.C02.c02_none_applicable",
     ],
+    "C16": [
+        "Rbacx.C16.c16_all_or_nothing",
+        "Rbacx.C16.c16_failure_leaves_no_temp",
+        "Rbacx.C16.c16_success_writes_new",
+        "Rbacx.C16.c16_other_files_untouched",
+        "Rbacx.C16.c16_outcome",
+        "Rbacx.C16.c16_model_meets_atomic_spec",
+        "Rbacx.C16.c16_load_is_disk",
+        "Rbacx.C16.c16_etag_stable",
+        "Rbacx.C16.c16_etag_truthful",
+        "Rbacx.C16.c16_cache_invariant",
+        "Rbacx.C16.c16_etag_changes",
+        "Rbacx.C16.c16_etag_changes_history",
+        "Rbacx.C16.c16_etag_same_content",
+        "Rbacx.C16.c16_mtime_mode",
+        "Rbacx.C16.c16_touch_changes_tag",
+        "Rbacx.C16.c16_model_meets_etag_spec",
+    ],
 }
 
-PROPERTY_IMPORTS = ["Rbacx.Properties.C02"]
+PROPERTY_IMPORTS = ["Rbacx.Properties.C02", "Rbacx.Properties.C16"]
 
 
 def audit_source() -> str:
